@@ -177,9 +177,12 @@ def check_shape(node, contract, key):
 def verify_function(eng, key, case_kinds=None, label_suffix=""):
     """symbolically execute the function against its contract; obligations accumulate in eng.obligations"""
     c = eng.cset.functions[key]
+    qual = key.split("::")[1]
+    # definitional axioms are scoped to the function under verification (they talk about that function's fresh symbols only);
+    # without the scope, shared symbols such as the cardinality function would drag every other function's definitions into a query
+    eng.__dict__.setdefault("def_marks", []).append(("%s/%s%s" % (eng.cset.property, qual, label_suffix), len(eng.defs)))
     st, mod, node = initial_state(eng, key, c, case_kinds or {})
     check_shape(node, c, key)
-    qual = key.split("::")[1]
     eng.cur_key = key
     eng.ob_prefix = "%s/%s%s" % (eng.cset.property, qual, label_suffix)
     env = dict(st.frames[0][0])
@@ -296,12 +299,29 @@ class Discharger:
         self.cache = {}
         self._bg = None
 
-    def background(self):
+    def background(self, prefix=None):
+        """global axioms + the definitions made while the function `prefix` was being verified"""
         if self._bg is None:
-            bg = list(self.eng.axioms) + list(self.eng.defs)
-            self._bg = [(a, collect_symbols(a, self.cache)) for a in bg]
+            self._bg = {}
             self._str = [(a, collect_symbols(a, self.cache)) for a in STRINGS.axioms()]
-        return self._bg
+        if prefix not in self._bg:
+            defs = list(self.eng.defs)
+            marks = list(getattr(self.eng, "def_marks", []))
+            if not marks or prefix is None:
+                chosen = defs
+            else:
+                chosen = defs[:marks[0][1]]                     # made before any function (contract-file AXIOMS)
+                found = False
+                for k, (name, start) in enumerate(marks):
+                    end = marks[k + 1][1] if k + 1 < len(marks) else len(defs)
+                    if name == prefix:
+                        chosen = chosen + defs[start:end]
+                        found = True
+                if not found:
+                    chosen = defs
+            bg = list(self.eng.axioms) + chosen
+            self._bg[prefix] = [(a, collect_symbols(a, self.cache)) for a in bg]
+        return self._bg[prefix]
 
     def smt2(self, ob):
         s = z3.Solver()
@@ -309,7 +329,11 @@ class Discharger:
         syms = set()
         for f in forms:
             syms |= collect_symbols(f, self.cache)
-        bg = self.background()
+        prefix = None
+        parts = ob.name.split("/")
+        if len(parts) >= 3:
+            prefix = "/".join(parts[:2])
+        bg = self.background(prefix)
         used = []
         changed = True
         pool = list(bg)
@@ -334,21 +358,28 @@ class Discharger:
         return s.to_smt2()
 
     def run_solver(self, which, path, timeout_s):
+        """budgets are CPU seconds of the solver process (RLIMIT_CPU), so that a verdict does not flip when the other cores are
+        busy; the wall-clock limits are only a generous safety net"""
+        wall = timeout_s * 6 + 30
         if which == "z3new":
-            cmd = ["z3-new", "-T:%d" % timeout_s, path]
+            cmd = ["z3-new", "-T:%d" % wall, path]
         elif which == "z3old":
-            cmd = ["/usr/bin/z3", "-T:%d" % timeout_s, path]
+            cmd = ["/usr/bin/z3", "-T:%d" % wall, path]
         elif which == "cvc5":
-            cmd = ["/usr/bin/cvc5", "--tlimit=%d" % (timeout_s * 1000), "--enum-inst", path]
+            cmd = ["/usr/bin/cvc5", "--tlimit=%d" % (wall * 1000), "--enum-inst", path]
         else:
             raise ValueError(which)
+
+        def limit_cpu():
+            import resource
+            resource.setrlimit(resource.RLIMIT_CPU, (int(timeout_s), int(timeout_s) + 2))
         t0 = time.time()
         try:
-            p = subprocess.run(cmd, capture_output=True, text=True, timeout=timeout_s + 10)
+            p = subprocess.run(cmd, capture_output=True, text=True, timeout=wall + 10, preexec_fn=limit_cpu)
             out = (p.stdout or "").strip().splitlines()
             res = out[0].strip() if out else "unknown"
             if res not in ("sat", "unsat", "unknown"):
-                res = "unknown" if "timeout" in (p.stdout + p.stderr) else "error:" + (p.stdout + p.stderr)[:200]
+                res = "unknown" if (p.returncode < 0 or "timeout" in (p.stdout + p.stderr)) else "error:" + (p.stdout + p.stderr)[:200]
         except subprocess.TimeoutExpired:
             res = "unknown"
         return res, time.time() - t0
@@ -399,7 +430,6 @@ class Discharger:
                     file=path, trail=list(ob.trail)[-12:])
 
     def discharge_all(self, obs):
-        self.background()
         items = [self.prepare(ob) for ob in obs]          # z3py is not thread-safe: SMT text is produced serially
         with concurrent.futures.ThreadPoolExecutor(max_workers=self.jobs) as ex:
             return list(ex.map(self.solve, items))
